@@ -339,6 +339,36 @@ func (e *originEngine) compute(v ssa.Value) TermSet {
 			out.add(T("elem", "", e.one(x.X)))
 		}
 	case *ssa.Slice:
+		// slice of a local array literal (varargs, composite literals): list the elements
+		if al, ok := x.X.(*ssa.Alloc); ok && x.Low == nil && x.High == nil {
+			if _, isArr := deref(al.Type()).Underlying().(*types.Array); isArr {
+				var elems []*Term
+				if refs := al.Referrers(); refs != nil {
+					var ias []*ssa.IndexAddr
+					for _, r := range *refs {
+						if ia, ok := r.(*ssa.IndexAddr); ok {
+							ias = append(ias, ia)
+						}
+					}
+					sort.Slice(ias, func(i, j int) bool {
+						a, _ := constInt(ias[i].Index)
+						b, _ := constInt(ias[j].Index)
+						return a < b
+					})
+					for _, ia := range ias {
+						if ir := ia.Referrers(); ir != nil {
+							for _, u := range *ir {
+								if st, ok := u.(*ssa.Store); ok && st.Addr == ia {
+									elems = append(elems, e.one(st.Val))
+								}
+							}
+						}
+					}
+				}
+				out.add(T("list", "", elems...))
+				break
+			}
+		}
 		lo, hi := T("_", ""), T("_", "")
 		if x.Low != nil {
 			lo = e.one(x.Low)
@@ -829,17 +859,7 @@ func (p *Prog) freeVarBindings(fv *ssa.FreeVar) []ssa.Value {
 			idx = i
 		}
 	}
-	if p.closureParents == nil {
-		p.closureParents = map[*ssa.Function][]*ssa.MakeClosure{}
-		for _, g := range p.Funcs {
-			allInstrs(g, func(i ssa.Instruction) {
-				if mc, ok := i.(*ssa.MakeClosure); ok {
-					fn := mc.Fn.(*ssa.Function)
-					p.closureParents[fn] = append(p.closureParents[fn], mc)
-				}
-			})
-		}
-	}
+	p.buildClosureParents()
 	var out []ssa.Value
 	for _, mc := range p.closureParents[f] {
 		if idx >= 0 && idx < len(mc.Bindings) {
@@ -872,10 +892,23 @@ func (p *Prog) cellAliases(a *ssa.Alloc) []ssa.Value {
 }
 
 func (p *Prog) closureMakes(fn *ssa.Function) []*ssa.MakeClosure {
-	if p.closureParents == nil {
-		p.freeVarBindings(&ssa.FreeVar{}) // force build (idx -1, harmless)
-	}
+	p.buildClosureParents()
 	return p.closureParents[fn]
+}
+
+func (p *Prog) buildClosureParents() {
+	if p.closureParents != nil {
+		return
+	}
+	p.closureParents = map[*ssa.Function][]*ssa.MakeClosure{}
+	for _, g := range p.Funcs {
+		allInstrs(g, func(i ssa.Instruction) {
+			if mc, ok := i.(*ssa.MakeClosure); ok {
+				fn := mc.Fn.(*ssa.Function)
+				p.closureParents[fn] = append(p.closureParents[fn], mc)
+			}
+		})
+	}
 }
 
 // cellStores: all stores whose address is the cell (alloc) or a free variable aliasing it.
